@@ -178,9 +178,25 @@ def gen_wrapper_case(g: VGen, opts: dict) -> dict:
     """C05: a union / optional / maybe / lazy / user wrapper at the root"""
     r = g.rng
     g.reset()
-    k = r.choice(["union", "union", "optional", "maybe", "lazy", "lazy", "user", "always"])
+    k = r.choice(["union", "union", "optional", "maybe", "lazy", "lazy", "user", "always", "knr"])
+    forced_x = None
     if k == "always":
         v = {"k": "always", "vid": 1}
+    elif k == "knr":
+        # KeyNotRequired on its own (it is a public Validator): the payload is Just(inner payload), also when the
+        # inner payload already is a Maybe (Maybe validators, nested KeyNotRequired, AlwaysValid given a Just)
+        c = r.random()
+        if c < 0.4:
+            inner = g.gen_maybe(r.choice([0, 1]), False)
+        elif c < 0.6:
+            inner = {"k": "always", "vid": g.vid()}
+            if r.random() < 0.7:
+                forced_x = r.choice([{"t": "nothing"}, {"t": "just", "oid": g.oid(), "v": g.hostile()}])
+        elif c < 0.75:
+            inner = {"k": "knr", "vid": g.vid(), "inner": g.gen_v(r.choice([0, 1]))}
+        else:
+            inner = g.gen_v(r.choice([0, 1]))
+        v = {"k": "knr", "vid": g.vid(), "inner": inner}
     elif k == "union":
         n = r.choice([1, 2, 3, 4, 5, 8])
         v = {"k": "union", "vid": g.vid(), "vs": [g.gen_v(r.choice([0, 0, 1])) for _ in range(n)],
@@ -194,6 +210,8 @@ def gen_wrapper_case(g: VGen, opts: dict) -> dict:
         x = g.conform(v, rec_depth=r.choice([0, 1, 2, 4, 6]))
         if stream == "near":
             x = g.near_miss(x)
+    if forced_x is not None:
+        x = forced_x
     return {"env": g.env, "v": v, "x": x, "stream": stream, "classes": g.classes}
 
 
